@@ -408,7 +408,7 @@ def _rx(e, st, pos):
         sep = " " if e[1] == "not" else ""
         inner = e[2]
         s = rx(inner, st, "operand")
-        if inner[0] in ("bin", "ifx") and not s.startswith("("):
+        if inner[0] in ("bin", "ifx") and not _wrapped(s):
             s = "(" + s + ")"
         return e[1] + sep + s
     if k == "bin":
